@@ -41,7 +41,7 @@ CHECKS = {
          "(thorough: 531,441 pairs) abstract keys; every pair is built for real by cluster scaling (abstract key -> 85 or 255 real keys, so real "
          "255-row block boundaries are isomorphic to the model's) and run through the real diff.DiffTables with events, offsets and crash "
          "behaviour compared; seeded real-scale unaligned pairs (composite keys, no-PK tables, empty sides) are validated by TLC (TraceDiff.tla).",
-         "tables are built through the real ingest with unique keys; `wrgl diff` CLI rendering not exercised",
+         "tables are built through the real ingest with unique keys; the interactive table widget of `wrgl diff` is not exercised (its row source RowChangeReader and the --no-gui output are)",
          "TLA+ spec Diff.tla; TLC-enumerated table pairs replayed into pkg/diff; TLC trace validation (TraceDiff.tla)",
          "DESIGN.md 5/C04"),
  "C16": ("pool", "model_checking",
@@ -50,7 +50,7 @@ CHECKS = {
          "(= one-worker table), ErrorReported, NoSendAfterClose and, under weak fairness, that the caller always returns; Pipes.tla does the "
          "same for the differ -> mergeTables -> collector -> caller topology with its shared error channel; the pool model without the mutex "
          "must violate NoLoss (self-test). Real 1..16-worker ingests (GOMAXPROCS 1/2/4/16, seeded sleeps inside the hooks, injected store "
-         "failures) are recorded through the verif hooks and validated by TLC against TracePool.tla; the diff scenario set is replayed under "
+         "failures, the workers reporting to one visible progress bar whose Done + Wait must return) are recorded through the verif hooks and validated by TLC against TracePool.tla; the diff scenario set is replayed under "
          "seeded yields at every channel send; diff and merge scenarios are repeated with a read error injected at the k-th store read (once, "
          "and sticky = an unreadable object): every run must end and a fault that fired must be reported or not matter; thorough adds "
          "race-detector runs.",
@@ -125,7 +125,7 @@ CHECKS = {
          "repositories of <=3 (quick) / <=4 (thorough, 595,056) commits over three block-sharing tables x ref subsets of every kind x absent "
          "(shallow) tables; each is built for real (ingest-built tables, objmock or badger+sqlite) and run through prune.Prune / wrgl prune / "
          "wrgl gc twice, key sets compared with must/mustNot and every surviving commit re-read in full; traces of larger seeded "
-         "repositories are validated by TLC (TracePrune.tla).",
+         "repositories (also `wrgl gc` with a transaction TTL configured in the repository / the global configuration) are validated by TLC (TracePrune.tla).",
          "commit objects named by refs/parents exist; tables are complete or absent",
          "TLA+ spec Prune.tla; TLC-enumerated repositories replayed into pkg/prune and the CLI; TLC trace validation (TracePrune.tla)",
          "DESIGN.md 5/C12"),
@@ -134,7 +134,7 @@ CHECKS = {
          "shift from the back, fan-out update, reopen); TLC checks Sorted, FanoutConsistent, exact membership after flush and reopen for all "
          "operation sequences to depth 7/11 and exports every sequence of depth 5 (quick: 98,304) / 6 (thorough: 786,432) with the allowed "
          "Has-answers; each is replayed on the real index.HashSet on a real file with answers and file projection compared; real-scale "
-         "random traces (hundreds of hashes sharing first bytes 00/ff, batch 1..50, repeats, reopen) are validated by TLC (TraceHashSet.tla).",
+         "random traces (hundreds of hashes sharing first bytes 00/ff, batch 1..50, one session with a whole default batch of 1024 and one with a larger batch, repeats, reopen) are validated by TLC (TraceHashSet.tla).",
          "answers for added-but-unflushed hashes are free (statement speaks about the flushed set); Len() not judged",
          "TLA+ spec HashSet.tla; TLC-enumerated operation sequences replayed into pkg/index; TLC trace validation (TraceHashSet.tla)",
          "DESIGN.md 5/C20"),
@@ -144,7 +144,7 @@ CHECKS = {
          "evaluates Crash!RepoConsistent (refs -> present commits, commits have parents, present tables have blocks / block indices / table "
          "index, written heads have their table) in the state after EVERY write on the structure scanned from the real stores; the real wrgl "
          "binary is killed at its n-th write for every n, the reopened store scanned and judged by the same invariant, the command re-run and "
-         "its end state compared with the uninterrupted run; CrashModel.tla (TLC) shows that every linearization of the safe precedence is "
+         "its end state (refs, tables and history; for prune / gc also the inventory of commits, tables and blocks) compared with the uninterrupted run; CrashModel.tla (TLC) shows that every linearization of the safe precedence is "
          "consistent at every crash point and that the pre-repair orders are not.",
          "crash points are store-write boundaries; durability below the store API trusted; receive paths covered by the sync traces",
          "TLA+ specs Crash.tla / CrashModel.tla (TLC); TLC trace validation (TraceCrash.tla) of hook-recorded write sequences and of post-kill store scans of the real binary",
@@ -167,7 +167,7 @@ CHECKS = {
          "DiscardKeepsHeads and CommittedRefuses over all interleavings; TxnGen enumerates 1..3 staged branches (new / existing) x "
          "sequences of commit / discard x an error or crash at every store-operation index and exports the SET of allowed observation "
          "sequences; each scenario runs on the real transaction.Commit / Discard over fault-injecting wrappers around both stores (a sample "
-         "through `wrgl transaction commit|discard` with crashes at the store-write hooks) and heads, reflogs, transaction row, staged refs "
+         "through `wrgl transaction commit|discard` with crashes at the store-write hooks, staged with the real `wrgl commit --txid` in both of its forms) and heads, reflogs, transaction row, staged refs "
          "and commit objects are tested for membership; seeded multi-transaction histories are validated by TLC (TraceTxn.tla).",
          "failure points are store-operation boundaries (sqlite / badger trusted below their API, see C13)",
          "TLA+ spec Txn.tla (TLC, all interleavings and failure points); TLC-enumerated fault scenarios replayed into pkg/transaction and the CLI; TLC trace validation (TraceTxn.tla)",
